@@ -35,7 +35,7 @@ func init() {
 			"Count/Infos are only observed at quiescent points (sync.Map.Range is not a snapshot; the property's 'always match' is read as: whenever no registration is in flight)",
 			"porcupine result Unknown (timeout) is inconclusive and never reported",
 		},
-		RequiredProbes: []string{"c05.regist-race", "c05.unregist-vs-regist"},
+		RequiredProbes: []string{"c05.regist-race", "c05.unregist-vs-regist", "c05.hls-access-postpones-idle-close"},
 	})
 }
 
@@ -163,6 +163,7 @@ func buildC05Media(tier string) sim.Scenario {
 		w.PanicClass = "C05/panic"
 		tp := w.Tape
 		resetWorld(tp.Bool())
+		hlsCapable := tp.Bool() // streams with H.264 + AAC: they have an HLS playlist whose last access postpones the idle close
 		nAct := 2 + tp.Choose(2)
 		scripts := make([][2][]c05Op, nAct)
 		total := 0
@@ -224,7 +225,11 @@ func buildC05Media(tier string) sim.Scenario {
 				sid := len(streams)
 				streams = append(streams, st)
 				mu.Unlock()
-				st.s = media.NewStream(c05Spellings[op.path][op.spelling], sdpH264)
+				if hlsCapable {
+					st.s = media.NewStream(c05Spellings[op.path][op.spelling], sdpH264AAC)
+				} else {
+					st.s = media.NewStream(c05Spellings[op.path][op.spelling], sdpH264)
+				}
 				mu.Lock()
 				byPtr[st.s] = sid
 				own[client] = append(own[client], sid)
@@ -406,6 +411,7 @@ func buildC05Media(tier string) sim.Scenario {
 			}
 		}
 		// let the consumers of half of them leave so that the idle-close job has something to do
+		var noCons []int
 		for i, sid := range replacedWithCons {
 			if i%2 == 0 {
 				st := streams[sid]
@@ -415,6 +421,24 @@ func buildC05Media(tier string) sim.Scenario {
 						st.s.StopConsume(st.cids[k])
 					}
 				}
+				noCons = append(noCons, sid)
+			}
+		}
+		// a retired stream without consumers whose HLS playlist is still being fetched must survive the idle scans
+		// (period 5 min) while the last fetch is younger than that, and be closed once the fetches stop
+		if len(noCons) > 0 && hlsCapable && tp.Bool() {
+			st := streams[noCons[0]]
+			if hl := st.s.Hlsable(); hl != nil && st.s.VerifStatus() == media.StreamOK {
+				w.Probe("c05.hls-access-postpones-idle-close")
+				for k := 0; k < 5; k++ {
+					hl.M3u8("")
+					w.Sleep(2 * time.Minute)
+					if st.s.VerifStatus() != media.StreamOK {
+						w.Fail("C05/closed-despite-hls-access", "s%d (retired, no consumers) was closed for idleness %d min into a series of HLS playlist fetches 2 min apart (last fetch 2 min ago, idle period 5 min)", noCons[0], 2*(k+1))
+						return
+					}
+				}
+				w.Sleep(11 * time.Minute)
 			}
 		}
 	}
